@@ -24,6 +24,8 @@ impl AllocError {
 pub struct Heap {
     inner: InnerHeap,
     resource_err_loc: Option<NonZero<usize>>,
+    // cell index just past the term written by `store_resource_error` (0 if none)
+    resource_err_end: usize,
 }
 
 impl Drop for Heap {
@@ -581,6 +583,7 @@ impl Heap {
                 byte_cap: 0,
             },
             resource_err_loc: None,
+            resource_err_end: 0,
         }
     }
 
@@ -627,6 +630,7 @@ impl Heap {
                 },
                 // pstr_vec: bitvec![],
                 resource_err_loc: None,
+                resource_err_end: 0,
             })
         }
     }
@@ -714,7 +718,17 @@ impl Heap {
 
             let mut writer = Heap::functor_writer(stub);
             writer(self).unwrap();
+
+            self.resource_err_end = cell_index!(self.inner.byte_len);
         }
+    }
+
+    /// Number of cells at the start of the heap that must survive for the lifetime of the
+    /// machine: the interstitial cell 0 and the pre-stored `error(resource_error(memory), [])`.
+    /// A choice point that reclaims "the whole heap" must record this offset, not 0.
+    #[inline]
+    pub(crate) fn reserved_prefix_cell_len(&self) -> usize {
+        self.resource_err_end
     }
 
     #[inline]
